@@ -1,7 +1,7 @@
 (* Property C14 — Attribute blobs round-trip and follow the documented layout (statements only).
    The proofs are in Proofs/AttrFacts.v and Proofs/RotationFacts.v; the model is Model/Attr.v (+ Rotation.v,
    BrickColor.v, Utf8.v), the independent document codec is Spec/AttrSpec.v. *)
-From RbxVerif Require Import Base Bytes Value Rotation Attr AttrSpec RotationFacts AttrFacts.
+From RbxVerif Require Import Base Bytes Value Rotation Attr AttrSpec RotationFacts AttrFacts AttrSafe AttrSpecFacts.
 Open Scope N_scope.
 
 (* an empty map encodes to zero bytes and zero bytes decode to an empty map *)
@@ -11,7 +11,8 @@ Proof. exact attr_empty. Qed.
 (* every well-formed attribute map (names strictly increasing Strings, sizes < 2^32, floats any 32/64-bit pattern,
    integers in range, BrickColor numbers of the table, fonts with table weights) that the writer accepts is read
    back as the same names with the normalised values: String -> BinaryString, cached_face_id Some "" -> None, a
-   rotation that to_basic_rotation_id recognises -> that basic rotation; everything else bit-identical *)
+   rotation that to_basic_rotation_id recognises (C14_rotation_snap_only_near_basis) -> that basic rotation;
+   everything else bit-identical *)
 Theorem C14_attr_roundtrip : forall m b,
   wf_amap m = true -> attr_encode m = Ok b -> attr_decode b = Ok (norm m).
 Proof. exact attr_roundtrip. Qed.
@@ -43,17 +44,60 @@ Theorem C14_spec_rotation_table_agrees : forall id,
   spec_rot_of_id id spec_rotation_table = from_basic_rotation_id id.
 Proof. exact spec_rotation_table_agrees. Qed.
 
-(* the pinned approx_unit_or_zero gives 0.5*I the id of the identity: it is read back as I *)
+(* a matrix is stored as a basic rotation id only if every entry is within f32::EPSILON of that rotation's entry
+   (entries compared on bit patterns: 0 -> |x| <= EPSILON; +-1 -> same sign and 1-EPSILON <= |x| <= 1+EPSILON) *)
+Theorem C14_rotation_snap_only_near_basis : forall m id b,
+  to_basic_rotation_id m = Some id ->
+  from_basic_rotation_id id = Some b ->
+  near_mat m b.
+Proof. exact rotation_snap_only_near_basis. Qed.
+
+(* before /repo commit 66cfd56a this failed: approx_unit_or_zero as it then was gave 0.5*I the id of the identity,
+   so it was read back as I; the current code gives 0.5*I no id *)
 Theorem C14_snap_scaled_refuted :
-  to_basic_rotation_id half_identity = Some 2 /\
+  to_basic_rotation_id_with approx_unit_or_zero_pinned half_identity = Some 2 /\
   from_basic_rotation_id 2 = Some mat3_identity /\
   mat3_identity <> half_identity.
 Proof. exact snap_scaled_refuted. Qed.
+Theorem C14_snap_scaled_repaired : to_basic_rotation_id half_identity = None.
+Proof. exact snap_scaled_repaired. Qed.
 
-(* with the repaired test ((|v| - 1).abs() <= EPSILON) an id is given only to matrices every entry of which is
-   within f32::EPSILON of the basic rotation's entry *)
-Theorem C14_rotation_snap_only_near_basis_fixed : forall m id b,
-  to_basic_rotation_id_with approx_unit_or_zero_fixed m = Some id ->
-  from_basic_rotation_id id = Some b ->
-  near_mat m b.
-Proof. exact rotation_snap_only_near_basis_fixed. Qed.
+(* ---- the bytes follow docs/attributes.md ---- *)
+
+(* whatever non-empty well-formed map the writer encodes, the independent reader written from the document decodes
+   the bytes to the same names with the same normalised values *)
+Theorem C14_attr_meets_spec : forall m b,
+  wf_amap m = true -> m <> [] -> attr_encode m = Ok b -> spec_decode b = Ok (norm m).
+Proof. exact attr_meets_spec. Qed.
+
+(* on maps whose rotations are exact (one of the 24 table matrices bit for bit, or not recognised by the writer)
+   the writer's bytes are exactly the bytes the document prescribes *)
+Theorem C14_spec_encode_agrees : forall m b,
+  wf_amap m = true -> m <> [] -> Forall (fun e => value_exact (snd e)) m ->
+  (attr_encode m = Ok b <-> spec_encode m = Ok b).
+Proof. exact spec_encode_agrees. Qed.
+Theorem C14_table_rotation_exact : forall id m, from_basic_rotation_id id = Some m -> rot_exact m.
+Proof. exact table_rotation_exact. Qed.
+Theorem C14_unrecognised_rotation_exact : forall m, to_basic_rotation_id m = None -> rot_exact m.
+Proof. exact unrecognised_rotation_exact. Qed.
+
+(* blobs built from the document by an independent encoder decode to the values they describe *)
+Theorem C14_attr_reads_spec : forall m b,
+  wf_amap m = true -> Forall (fun e => value_exact (snd e)) m ->
+  spec_encode m = Ok b -> attr_decode b = Ok (spec_norm m).
+Proof. exact attr_reads_spec. Qed.
+
+(* the empty map is where the writer leaves the document: zero bytes are not a blob of the document, while the
+   document's encoding of the empty map (a zero count) is read as the empty map *)
+Theorem C14_attr_empty_outside_document :
+  attr_encode [] = Ok [] /\ spec_decode [] = Err SPEC_ERR /\
+  spec_encode [] = Ok [0; 0; 0; 0] /\ attr_decode [0; 0; 0; 0] = Ok [].
+Proof. exact attr_empty_outside_document. Qed.
+
+(* ---- totality ---- *)
+
+(* the reader never panics and always terminates, on every byte string; the writer never reaches unreachable!() *)
+Theorem C14_attr_decode_total : forall b, attr_decode b <> Panic /\ attr_decode b <> OutOfFuel.
+Proof. exact attr_decode_total. Qed.
+Theorem C14_attr_encode_no_panic : forall m, attr_encode m <> Panic /\ attr_encode m <> OutOfFuel.
+Proof. exact attr_encode_no_panic. Qed.
